@@ -801,9 +801,9 @@ fn kill_case() -> BoxedStrategy<KillCase> {
 }
 
 pub fn run(ctx: &Ctx, rep: &Report) {
-    run_prop(ctx, rep, "failures", ctx.tier.pick(1_200, 24_000), &|| case(), &check);
-    run_prop_threads(ctx, rep, "crash-points", ctx.tier.pick(16, 300), ctx.threads.min(8), &|| crash_case(), &check_crash);
-    run_prop_threads(ctx, rep, "sigkill", ctx.tier.pick(48, 1_000), ctx.threads.min(8), &|| kill_case(), &check_kill);
+    run_prop(ctx, rep, "failures", ctx.tier.pick(1_200, 80_000), &|| case(), &check);
+    run_prop_threads(ctx, rep, "crash-points", ctx.tier.pick(16, 600), ctx.threads.min(8), &|| crash_case(), &check_crash);
+    run_prop_threads(ctx, rep, "sigkill", ctx.tier.pick(48, 2_000), ctx.threads.min(8), &|| kill_case(), &check_kill);
 }
 
 pub fn replay(sub: &str, case: &serde_json::Value) -> Result<(), Fail> {
